@@ -206,23 +206,25 @@ func c01(w *core.World, r *core.Report) {
 		if strings.Contains(core.FuncKey(f), "mocks/") {
 			continue
 		}
-		r.Check(core.FuncKey(f) == kApplyIntent, "SINGLE-WRITER", core.Site(f, "call target.Set"), w.InstrPos(c), "the device is written in one place only")
+		r.Check(core.HostsIn(f, kApplyIntent), "SINGLE-WRITER", core.Site(f, "call target.Set"), w.InstrPos(c), "the device is written in one place only")
 	}
 	for _, c := range w.CallersOfKey(kApplyIntent) {
 		f := c.Parent()
-		k := core.FuncKey(f)
-		r.Check(k == kLowlevel || k == kReplaceIntent, "SINGLE-WRITER", core.Site(f, "call applyIntent"), w.InstrPos(c), "applyIntent is called by the transaction pipeline only")
+		r.Check(core.HostsIn(f, kLowlevel, kReplaceIntent), "SINGLE-WRITER", core.Site(f, "call applyIntent"), w.InstrPos(c), "applyIntent is called by the transaction pipeline only")
 	}
 	for _, f := range w.RepoFns {
 		for _, m := range intendedModifies(f) {
-			r.Check(core.FuncKey(f) == kLowlevel, "SINGLE-WRITER", core.Site(f, "Modify(INTENDED)"), w.InstrPos(m), "the intended store is written by the transaction pipeline only")
+			if m.Parent() != f {
+				continue
+			}
+			r.Check(core.HostsIn(f, kLowlevel), "SINGLE-WRITER", core.Site(f, "Modify(INTENDED)"), w.InstrPos(m), "the intended store is written by the transaction pipeline only")
 		}
 	}
 
 	// ---- DELETE-PAIR
 	r.Rule("DELETE-PAIR", 1, "the two representations of a synthetic delete (sdcpb.Path for the device, path slice for the stores) handed to NewDeleteEntryImpl depend on the same inputs: both must depend on the name of the deactivated case.")
 	for _, f := range w.RepoFns {
-		for _, c := range core.CallsTo(f, "tree.NewDeleteEntryImpl") {
+		for _, c := range core.OwnCallsTo(f, "tree.NewDeleteEntryImpl") {
 			args := core.CallArgs(c)
 			if len(args) != 2 {
 				continue
